@@ -290,7 +290,7 @@ def eval_int_test(node, var, val):
     return None
 
 
-def r2_pairing(ctx, rule, quals=None, entries=(ENTRY,), floor=12):
+def r2_pairing(ctx, rule, quals=None, entries=(ENTRY,), floor=12, skip_markov=False):
     emitters, closure = emitter_quals(ctx, entries)
     quals = quals or [PG + '_recursive_guesses', PG + '_honeyword_recursive_guess', PG + 'omen_generate_guesses',
                       CS + 'run', HS + 'run']
@@ -304,6 +304,11 @@ def r2_pairing(ctx, rule, quals=None, entries=(ENTRY,), floor=12):
             continue
         evs = emission_events(ctx, qual, fn, emitters, closure)
         for st, block, i, amount in evs:
+            if skip_markov:
+                mod_ = ctx.repo.modules[qual.partition('::')[0]]
+                from ..core import path_conditions as _pc
+                if any(U(t) == "category == 'M'" and p_ for t, p_ in _pc(mod_, st)):
+                    continue
             # tail position: `return self.emitter(..., limit)` needs no accounting
             n += 1
             check_pairing(ctx, rule, qual, fn, var, st, block, i, amount)
